@@ -12,6 +12,9 @@ CLAIMED = {
  'C07': ('bounded exhaustive input enumeration on the real code (explicit enumeration of all paths/texts in the alphabet, no sampling)',
          'Every instance/class path over the path alphabet (all key kinds, strings up to length L over the URI delimiter atoms, nesting depth 3, hosts, namespaces) is printed in all four formats and re-parsed by the real pywbem code; every re-cased/permuted variant is compared for canonical equality; every text up to length L over the delimiter atoms and every single edit of printed URIs is fed to both parsers. Exhaustive within the stated bounds.',
          'trusts the comparison oracle in checks/c07_uri.py (kind-preserving value comparison, documented untyped-URI limits excluded by construction)', '§5 C07'),
+ 'C01': ('bounded exhaustive input enumeration on the real code (all object specs of a finite alphabet, both escaping modes), strict attribute-level round-trip oracle',
+         'Every typed value of the 15 CIM types as scalar/array/NULL in five carriers, every string up to length L over 16 atoms in every string context and at embedding depth 0..3, attribute combinations and small object trees with all child permutations are encoded with tocimxml() and parsed back with the real parser twice (entity and CDATA escaping); the result is compared attribute by attribute (exact types, case, order) with the original under the DSP0201 defaults, and the second round must be a fixed point with byte-identical XML. Exhaustive within the stated bounds.',
+         'trusts mc/objdump.py (strict dump/diff, DSP0201 default table); Real32 values are compared at float32 precision; hosts without namespace and CIMClass.path are not representable in the encoded element and are excluded', '§5 C01'),
 }
 NOT_YET = 'check not built yet in this round (planned, see DESIGN.md §5); not claimed until it exists'
 
